@@ -7,4 +7,19 @@ for _fs in (48000, 24000, 16000, 12000, 8000):
                  'stub of opus_packet_parse_impl carrying exactly the clauses E2-E9 enforced on the real parser under C06',
                  'frame-only stub of opus_pcm_soft_clip (its contract is enforced under C19)'],
         what='opus_decode_native at Fs=%d: result range, argument rules, PLC/FEC exact duration, last_packet_duration, invariant; recursion unwound, PLC and frame loops by contract' % _fs))
+_DW = dict(cls='P', tu='C01_dec_wrappers.c', replace=['opus_decode_native'], defines=['-U__SSE__'], canary='real', unwind=2, timeout=1200,
+           trusted=['opus_decode_native replaced by its contract (result range and exact PLC/FEC duration are what the decode_native_fs* groups establish H-style; here assumed)',
+                    'stub of celt_float2int16_c (other TU): writes exactly cnt samples, sample K by FLOAT2INT16'])
+GROUPS += [
+ dict(_DW, name='wrap_opus_decode24', entry='h_opus_decode24', expect_canaries=2, functions=['opus_decode24', 'opus_decoder_get_nb_samples'], what='opus_decode24: argument rules, PLC/FEC forwarded with the full duration, packet decoded into min(frame_size, duration), sample K = round(2^23 x) (loop contract), no soft clip'),
+ dict(_DW, name='wrap_opus_decode', entry='h_opus_decode', expect_canaries=2, functions=['opus_decode', 'opus_decoder_get_nb_samples'], what='opus_decode: same rules, soft clip requested, conversion through celt_float2int16'),
+ dict(_DW, name='wrap_opus_decode_float', entry='h_opus_decode_float', functions=['opus_decode_float'], what='opus_decode_float: passes straight through'),
+]
 META = {}
+GROUPS.append(dict(name='decode_frame_fs8000', cls='F', tu='C01_decode_frame.c', entry='h_decode_frame', dfcc=False, canary='real', expect_canaries=3,
+    defines=['-DVERIF_FS=8000', '-U__SSE__'], unwind=8, unwind_fn={'opus_decode_frame': 1930, 'smooth_fade': 25, 'h_decode_frame': 8}, timeout=5400, mem_gb=24,
+    cbmc_flags=['--object-bits', '10', '--slice-formula'],
+    functions=['opus_decode_frame', 'smooth_fade', 'ec_dec_init', 'ec_dec_bit_logp', 'ec_dec_uint', 'ec_tell'],
+    trusted=['ASSUMED frame contracts (stubs) of silk_Decode, celt_decode_with_ec(_dred), opus_custom_decoder_ctl, silk_ResetDecoder: result ranges and write extents only; each asserts the validity of the buffers it receives'],
+    bounds='Fs = 8000 (all frame durations 2.5-120 ms), payload of <= 6 symbolic bytes, decoder gain 0; recursion depth <= 8',
+    what='opus_decode_frame glue: result range, exact duration of a real frame, concealment succeeds with a multiple of 2.5 ms, buffers handed to SILK/CELT are large enough, redundancy offsets inside the packet, no internal abort'))
